@@ -101,6 +101,8 @@ def gen_requests():
             T = f"{name}Request{fr}"
             # constructor
             c6 = ",C06" if kind == "read" else ""  # only the four read constructors are reached from the request builder
+            if kind == "fc15":
+                c6 = ",C11"  # C11: every pattern of 1..1968 coils can be written (and read back)
             cl = [f"safety[C01{c6}]", "modifies[C01] nothing"]
             if kind == "fc16":
                 cl.append("alias res.Data := data if err == nil")
